@@ -519,7 +519,7 @@ FOR_SCHEMAS = [
 def u_visit_for(c):
     """for T in E: body -> for T in visit(E): try: #loop_v..., target interactions, visit(body) finally: #endloop_v...
     for every variable v of the target; else-branch visited; every target form accepted."""
-    it, tr, dec = setup(c)
+    it, tr, dec = setup(c, reduced=True)
     k = c.choose(len(FOR_SCHEMAS), "schema")
     label, src, vars_, tevs = FOR_SCHEMAS[k]
     node = parse_stmt(src)
